@@ -1723,6 +1723,24 @@ func (t *itr) stmts(list []ast.Stmt, ind string) []string {
 		if x.Tok != token.DEFINE && x.Tok != token.ASSIGN {
 			return append(out, ind+t.fail("unsupported assignment operator %s", x.Tok))
 		}
+		if len(x.Lhs) == 2 && len(x.Rhs) == 1 && x.Tok == token.DEFINE {
+			if ta, ok := x.Rhs[0].(*ast.TypeAssertExpr); ok {
+				tn := strings.TrimPrefix(types.ExprString(ta.Type), "*")
+				if ext, ok := t.assertExt[tn]; ok {
+					// v, ok := x.(*T) for a translated struct T
+					f := t.tmp("f")
+					pre = append(pre, fmt.Sprintf("let %s := %s %s", f, ext, t.expr(ta.X, &pre)))
+					if id, ok := x.Lhs[0].(*ast.Ident); ok && id.Name != "_" {
+						pre = append(pre, fmt.Sprintf("let %s := (%s).getD default", id.Name, f))
+					}
+					if id, ok := x.Lhs[1].(*ast.Ident); ok && id.Name != "_" {
+						pre = append(pre, fmt.Sprintf("let %s := (%s).isSome", id.Name, f))
+					}
+					emit(pre)
+					return append(out, t.stmts(rest, ind)...)
+				}
+			}
+		}
 		if len(x.Lhs) == 1 && len(x.Rhs) == 1 && x.Tok == token.DEFINE {
 			if ta, ok := x.Rhs[0].(*ast.TypeAssertExpr); ok {
 				tn := strings.TrimPrefix(types.ExprString(ta.Type), "*")
@@ -2942,12 +2960,13 @@ func genPools(repo string, tiny bool) (string, []string) {
 	for _, f := range []string{"Query.countEntities", "Query.Count", "Query.entityAt", "Query.EntityAt", "World.exchangeArch", "World.exchangeBatchNoNotify", "World.setRelationArch", "World.setRelationBatchNoNotify"} {
 		t.joinIf[f] = true
 	}
-	for _, f := range []string{"World.exchangeArch", "World.exchangeBatchNoNotify", "World.setRelationArch", "World.setRelationBatchNoNotify", "World.newEntities", "World.newEntityTarget", "World.copyTo"} {
+	for _, f := range []string{"World.exchangeArch", "World.exchangeBatchNoNotify", "World.setRelationArch", "World.setRelationBatchNoNotify", "World.newEntities", "World.newEntityTarget", "World.copyTo", "World.closeQuery"} {
 		t.usesEff[f] = true
 		t.joinIf[f] = true
 	}
 	t.tokens["archetypeAccess"] = true
 	t.srcExt = map[string]string{"q.world.closeQuery": "closeQueryF"}
+	t.worldExt["World.notifyQuery"] = "notifyQueryF"
 	for _, f := range []string{"Query.nextArchetypeFiltered", "Query.nextBatch", "Query.nextNode", "Query.nextNodeOrArchetype", "Query.nextArchetype", "Query.Next"} {
 		t.usesEff[f] = true
 	}
@@ -2963,7 +2982,7 @@ func genPools(repo string, tiny bool) (string, []string) {
 	t.structs["EntityEvent"] = true
 	t.effExt["archetype.Remove"] = "archRemoveF"
 	t.nilChecks = map[string]bool{}
-	for _, f := range []string{"World.copyTo", "World.newEntityTarget", "World.newEntities", "World.exchangeArch", "World.exchangeBatchNoNotify", "World.setRelationArch", "World.setRelationBatchNoNotify", "Query.setArchetype", "Query.stepArchetype", "Query.nextArchetypeSimple", "Query.nextArchetypeFiltered", "Query.nextArchetypeBatch", "Query.nextBatch", "Query.nextNode", "Query.nextNodeOrArchetype", "Query.nextArchetype", "Query.Next",
+	for _, f := range []string{"World.closeQuery", "World.copyTo", "World.newEntityTarget", "World.newEntities", "World.exchangeArch", "World.exchangeBatchNoNotify", "World.setRelationArch", "World.setRelationBatchNoNotify", "Query.setArchetype", "Query.stepArchetype", "Query.nextArchetypeSimple", "Query.nextArchetypeFiltered", "Query.nextArchetypeBatch", "Query.nextBatch", "Query.nextNode", "Query.nextNodeOrArchetype", "Query.nextArchetype", "Query.Next",
 		"Query.countEntities", "Query.Count", "Query.entityAt", "Query.EntityAt", "World.findArchetypeSlow", "World.findOrCreateArchetypeSlow", "World.findOrCreateArchetype", "World.NewEntity", "World.notifyExchange", "World.exchange", "World.newEntitiesNoNotify", "World.removeEntities", "World.getExchangeMask", "World.exchangeNoNotify", "World.createArchetype", "World.setRelation", "World.RemoveEntity", "World.removeArchetype", "World.cleanupArchetype", "World.cleanupArchetypes", "World.createEntity", "World.createEntities", "World.Has", "World.HasUnchecked", "World.Mask",
 		"World.relationError", "World.checkRelation", "World.getRelation", "World.getRelationUnchecked"} {
 		t.nilChecks[f] = true
@@ -3004,6 +3023,7 @@ func genPools(repo string, tiny bool) (string, []string) {
 		"staleF":               {"stale.entityIndex", "Nat → entityIndex"},
 		"archResetF":           {"eff.archReset", "Ext → Option Nat → Ext × Unit"},
 		"asBatchF":             {"assert.batch", "GoAny → Option batchArchetypes"},
+		"notifyQueryF":         {"eff.notifyQuery", "Ext → World → batchArchetypes → Ext × World × Unit"},
 		"archSetF":             {"eff.archSet", "Ext → Option Nat → BitVec 32 → BitVec 8 → GoAny → Ext × GoAny"},
 		"nextBatchF":           {"eff.nextBatch", "Ext → Query → Ext × Query × Bool"},
 		"nextNodeF":            {"eff.nextNode", "Ext → Query → Ext × Query × Bool"},
@@ -3080,7 +3100,7 @@ func genPools(repo string, tiny bool) (string, []string) {
 		"Entity.IsZero", "World.removeArchetype", "World.cleanupArchetype", "World.cleanupArchetypes", "World.RemoveEntity",
 		"World.createArchetype", "World.setRelation", "World.getExchangeMask", "World.exchangeNoNotify", "World.removeEntities", "World.newEntitiesNoNotify", "World.notifyExchange", "World.exchange", "World.NewEntity",
 		"World.findArchetypeSlow", "World.findOrCreateArchetypeSlow", "World.findOrCreateArchetype",
-		"batchArchetypes.Get", "batchArchetypes.Len", "batchArchetypes.Add", "World.exchangeArch", "World.exchangeBatchNoNotify", "World.setRelationArch", "World.setRelationBatchNoNotify", "World.newEntities", "World.newEntityTarget", "World.copyTo", "Query.countEntities", "Query.Count", "Query.entityAt", "Query.EntityAt",
+		"batchArchetypes.Get", "batchArchetypes.Len", "batchArchetypes.Add", "World.exchangeArch", "World.exchangeBatchNoNotify", "World.setRelationArch", "World.setRelationBatchNoNotify", "World.newEntities", "World.newEntityTarget", "World.copyTo", "World.closeQuery", "Query.countEntities", "Query.Count", "Query.entityAt", "Query.EntityAt",
 		"Query.checkNext", "Query.setArchetype", "Query.stepArchetype", "Query.nextArchetypeSimple", "Query.nextArchetypeFiltered",
 		"Query.nextArchetypeBatch", "Query.nextBatch", "Query.nextNode", "Query.nextNodeOrArchetype", "Query.nextArchetype", "Query.Next",
 	}
